@@ -504,7 +504,7 @@ pub fn check_line(
                 }
                 (Outcome::Stdout { .. }, other) => {
                     return Verdict::fail(
-                        if adj_left(p) {
+                        if adj_left(p) && inside_adj_block(p) != Some(true) {
                             SIG_BEHIND_ADJACENT.to_owned()
                         } else {
                             format!("doubled-help-flag-loses/{}", other.class())
